@@ -3,6 +3,7 @@ package x25519
 import "github.com/oasisprotocol/ed25519"
 
 func vh_C20_ScalarBaseMult() {
+	vStopOnTaint(true) // the first secret-dependent site ends the run: the finding is established
 	in := vSecretBytes("scalar", 32)
 	var dst, src [32]byte
 	copy(src[:], in)
@@ -11,6 +12,7 @@ func vh_C20_ScalarBaseMult() {
 }
 
 func vh_C20_X25519Basepoint() {
+	vStopOnTaint(true) // the first secret-dependent site ends the run: the finding is established
 	in := vSecretBytes("scalar", 32)
 	out, err := X25519(in, Basepoint)
 	_, _ = out, err
@@ -18,6 +20,7 @@ func vh_C20_X25519Basepoint() {
 }
 
 func vh_C20_EdPrivateKeyToX25519() {
+	vStopOnTaint(true) // the first secret-dependent site ends the run: the finding is established
 	priv := vSecretBytes("priv", 64)
 	out := EdPrivateKeyToX25519(ed25519.PrivateKey(priv))
 	vAssert(len(out) == 32, "converted key length")
